@@ -198,6 +198,9 @@ def _large_register(self, c, psi_t, ml, N, res):
             A = cores[site]
             Lp = cache[ck][0]
             L = A[:, bit, :].T @ Lp @ A[:, bit, :].conj()
+            mx = float(np.max(np.abs(L)))
+            if 0 < mx < 1e-100:  # (only ratios enter the conditional probabilities: keep the environment of a long prefix away from underflow)
+                L = L / mx
             pos = site + 1
             key = key + (bit,)
         if tie:
